@@ -215,6 +215,7 @@ func c61Match(got, inner, onA, onB float64) bool {
 func c61MisfiledAdd(c c61Case) bool {
 	var pendingTime, horizon int64
 	for _, op := range c.Ops {
+		op.T = c61Clamp(op.T)
 		switch op.Kind {
 		case c61Clear:
 			pendingTime, horizon = 0, 0
